@@ -96,6 +96,7 @@ type FuncSpec struct {
 	Owns       bool
 	CrashAtomic bool
 	Trusted    bool
+	Reads      []*EachTemplate
 	Inline     bool
 	Shadow     bool
 	Pure       bool
@@ -210,7 +211,7 @@ func (db *SpecDB) funcTypeSpec(t types.Type) *FuncSpec {
 
 // ---- file parsing ----
 
-var clauseKw = map[string]bool{"crash-atomic": true, "ensures-agg": true, "ensures-each": true, "requires": true, "ensures": true, "assigns": true, "invariant": true, "decreases": true,
+var clauseKw = map[string]bool{"reads-each": true, "crash-atomic": true, "ensures-agg": true, "ensures-each": true, "requires": true, "ensures": true, "assigns": true, "invariant": true, "decreases": true,
 	"owns": true, "trusted": true, "inline": true, "pure": true, "shadow": true, "holds": true, "props": true, "params": true}
 var declKw = map[string]bool{"package-props": true, "imageset-of": true, "fieldset-of": true, "typeinv": true, "func": true, "pred": true, "lemma": true, "global": true, "interface": true, "type": true, "expect-obligations": true, "table": true}
 
@@ -486,6 +487,34 @@ func (db *SpecDB) parseFile(file, src string) error {
 				}
 				et.Text = body
 				cur.Each = append(cur.Each, et)
+			case "reads-each":
+				// reads-each Type[kinds] [except a,b]: [label]
+				// a key function must read every listed field of its receiver: a field it
+				// never reads cannot influence the key, so two values that differ only
+				// there get the same key
+				colon := strings.Index(r.text, ":")
+				lb := strings.Index(r.text, "[")
+				rb := strings.Index(r.text, "]")
+				if colon < 0 || lb < 0 || rb < 0 || rb > colon {
+					return fail(fmt.Errorf("reads-each Type[kinds] [except a,b]: [label]"))
+				}
+				et := &EachTemplate{Type: strings.TrimSpace(r.text[:lb]), Except: map[string]bool{}, File: file, Line: r.line}
+				for _, k := range strings.Split(r.text[lb+1:rb], ",") {
+					et.Kinds = append(et.Kinds, strings.TrimSpace(k))
+				}
+				mid := strings.TrimSpace(r.text[rb+1 : colon])
+				if strings.HasPrefix(mid, "except") {
+					for _, x := range strings.Split(strings.TrimSpace(strings.TrimPrefix(mid, "except")), ",") {
+						et.Except[strings.TrimSpace(x)] = true
+					}
+				}
+				body := strings.TrimSpace(r.text[colon+1:])
+				if strings.HasPrefix(body, "[") {
+					if e := strings.Index(body, "]"); e > 0 {
+						et.Label = body[1:e]
+					}
+				}
+				cur.Reads = append(cur.Reads, et)
 			case "crash-atomic":
 				cur.CrashAtomic = true
 			case "owns":
